@@ -224,9 +224,14 @@ def gen_case(rng, tier):
         lin = [[x, str(rng.dyadic(8, 1))] for x in uniq if rng.random() < 0.6]
         quad = [[uniq[i], uniq[j], str(rng.dyadic(8, 1) or Fraction(1))] for i in range(len(uniq)) for j in range(i)
                 if rng.random() < 0.5]
+        if rng.random() < 0.2:
+            # a supplied model WITHOUT variables that carries only a constant (len(model) == 0, so any truth-value
+            # test of the argument takes it for 'not supplied'); round-6 miss C15 r6m1
+            lin, quad = [], []
         other = 'SPIN' if vartype == 'BINARY' else 'BINARY'
         bvt = vartype if kind == 'cqm' or rng.random() < 0.5 else other
-        c["base"] = {"vartype": bvt, "lin": lin, "quad": quad, "off": str(rng.dyadic(8, 1)),
+        c["base"] = {"vartype": bvt, "lin": lin, "quad": quad,
+                     "off": str(rng.dyadic(8, 1) or Fraction(3, 2)) if not lin and not quad else str(rng.dyadic(8, 1)),
                      "pass_vartype": True if bvt != vartype else rng.choice([True, False])}
     if kind == 'reduce':
         c["aseed"] = rng.randrange(1 << 30)
